@@ -27,6 +27,17 @@ STD_VARIANTS = {
     'std::task::Poll': ['Ready', 'Pending'],
 }
 SOME0 = [['d', 'Some', 1], ['f', 0, '0']]
+# std combinators that call their closure argument at most once, immediately, depending on the receiver
+ONCE_COMBINATORS = {
+    'std::option::Option::<T>::or_else': {'when': 'None', 'other': 'Some', 'ret_skip': 'Some'},
+    'std::option::Option::<T>::unwrap_or_else': {'when': 'None', 'other': 'Some'},
+    'std::option::Option::<T>::map': {'when': 'Some', 'other': 'None', 'ret_run': 'Some', 'ret_skip': 'None'},
+    'std::option::Option::<T>::and_then': {'when': 'Some', 'other': 'None', 'ret_skip': 'None'},
+    'std::option::Option::<T>::filter': {'when': 'Some', 'other': 'None', 'ret_skip': 'None'},
+    'std::option::Option::<T>::map_or': {'when': 'Some', 'other': 'None'},
+    'std::option::Option::<T>::get_or_insert_with': {'when': 'None', 'other': 'Some', 'receiver_place': True,
+                                                     'sets_receiver': 'Some'},
+}
 TOP = None
 
 
@@ -49,6 +60,7 @@ class Interp:
         self.max_nodes = max_nodes
         self.summaries = summaries if summaries is not None else {}
         self.key_adt = {}   # extra: key -> adt path (pseudo places)
+        self.key_type = {}  # extra: key -> type string (pseudo places)
         self.closure_pushes = None  # callback(def path, ret=False) -> variant set or None
 
     # ---- ADT helpers
@@ -101,6 +113,8 @@ class Interp:
         return None
 
     def type_of_place(self, pl):
+        if isinstance(pl[0], str):
+            return self.key_type.get(pkey(pl[:1])) if len(pl) == 1 else None
         if is_local(pl):
             if pl[0] < len(self.fn.locals):
                 return self.fn.locals[pl[0]]['ty']
@@ -150,7 +164,7 @@ class Interp:
             return
         for k in list(st):
             v = st[k]
-            if v[0] in ('d', 'same', 'isv') and v[1] in dead_keys:
+            if v[0] in ('d', 'same', 'isv', 'isempty', 'isnonempty', 'popres') and v[1] in dead_keys:
                 del st[k]
 
     def kill_under(self, st, pl):
@@ -255,15 +269,12 @@ class Interp:
                 return
             elif rv['k'] == 'closure':
                 caps = []
-                for o in rv['o']:
+                for ci, o in enumerate(rv['o']):
                     v = self.eval_op(st, o)
                     if v and v[0] == 'ref':
-                        caps.append((v[1], v[2]))
+                        caps.append((v[1], v[2], ci))
                 val = ('clo', rv['def'], tuple(caps))
-                # a closure holding `&mut P` may modify P whenever it is called: apply now
-                for k, mut in caps:
-                    if mut:
-                        self.mut_capture(st, json.loads(k), rv['def'])
+                # the captured `&mut P` take effect where the closure is handed to a callee (call_effect)
         elif r == 'discr':
             p = self.norm(st, rv['p'])
             val = ('d', pkey(p))
@@ -273,6 +284,10 @@ class Interp:
                 val = ('c', 'false' if a[1] == 'true' else 'true')
             elif a and a[0] == 'isv':
                 val = ('isv', a[1], a[2], not a[3])
+            elif a and a[0] == 'isempty':
+                val = ('isnonempty', a[1])
+            elif a and a[0] == 'isnonempty':
+                val = ('isempty', a[1])
         elif r == 'bin' and rv['op'] in ('Eq', 'Ne'):
             a = self.eval_op(st, rv['a'])
             b = self.eval_op(st, rv['b'])
@@ -283,12 +298,70 @@ class Interp:
 
     def mut_capture(self, st, pl, closure_def):
         cur = self.get(st, pl)
-        if cur and cur[0] == 'q' and self.closure_pushes:
+        if cur and cur[0] == 'q' and self.closure_pushes and closure_def:
             vs = self.closure_pushes(closure_def)
             if vs is not None:
                 st[pkey(pl)] = ('q', q_norm(cur[1] + ((frozenset(vs), 'star'),)))
                 return
         self.kill_under(st, pl)
+
+    COLL_PREFIXES = ('std::vec::Vec<', 'std::collections::VecDeque<', 'std::collections::HashMap<',
+                     'std::collections::BTreeMap<', 'std::collections::HashSet<', 'std::collections::BTreeSet<',
+                     'std::collections::BinaryHeap<', 'indexmap::IndexMap<', 'indexmap::IndexSet<')
+
+    def is_collection_place(self, pl):
+        ty = self.type_of_place(pl)
+        return bool(ty) and ty.startswith(self.COLL_PREFIXES)
+
+    def run_closure(self, st, clo):
+        """apply the effect of one execution of closure `clo` on the places it captured by &mut:
+        the closure body is explored with its captured references bound to pseudo places that carry the
+        caller's abstract values; if every return agrees on a place's final value it is written back,
+        otherwise the place becomes unknown."""
+        cdef, caps = clo[1], clo[2]
+        fn = self.facts.fn(cdef, required=False)
+        muts = [c_ for c_ in caps if c_[1]]
+        if fn is None or getattr(self, '_clo_depth', 0) > 2:
+            for c_ in muts:
+                self.kill_under(st, json.loads(c_[0]))
+            return
+        sub = Interp(self.facts, fn, summaries=self.summaries)
+        sub._clo_depth = getattr(self, '_clo_depth', 0) + 1
+        sub.closure_pushes = self.closure_pushes
+        sub.max_nodes = 4000
+        init = {}
+        by_ref = fn.locals[1]['ty'].startswith('&')
+        for (k, mut, ci) in caps:
+            pseudo = ['$cap%d' % ci]
+            pk = pkey(pseudo)
+            caller_pl = json.loads(k)
+            ty = self.type_of_place(caller_pl)
+            if ty:
+                sub.key_type[pk] = ty
+            adt = self.adt_of_key(k)
+            if adt:
+                sub.key_adt[pk] = adt
+            cur = st.get(k)
+            if cur is not None and cur[0] in ('v', 'c', 'e', 'q'):
+                init[pk] = cur
+            # sub-places (payload facts) are not transferred
+            cap_place = ([1, '*', ['f', ci, str(ci)]] if by_ref else [1, ['f', ci, str(ci)]])
+            init[pkey(cap_place)] = ('ref', pk, mut)
+        try:
+            g = sub.explore(0, init)
+        except Bound:
+            for c_ in muts:
+                self.kill_under(st, json.loads(c_[0]))
+            return
+        rets = g.return_nodes()
+        for (k, mut, ci) in muts:
+            pk = pkey(['$cap%d' % ci])
+            vals = {g.pre_term[n].get(pk) for n in rets}
+            self.kill_under(st, json.loads(k))
+            if len(vals) == 1:
+                v = vals.pop()
+                if v is not None and v[0] in ('v', 'c', 'e', 'q') and self.trackable(json.loads(k)):
+                    st[k] = v
 
     def is_queue_place(self, pl):
         ty = self.type_of_place(pl)
@@ -326,6 +399,56 @@ class Interp:
             return None
 
         handled = False
+        # closures among the arguments
+        clos = []
+        for i, a in enumerate(args):
+            v = self.eval_op(st, a)
+            if v and v[0] == 'ref':
+                v2 = self.get(st, json.loads(v[1]))
+                if v2 and v2[0] == 'clo':
+                    v = v2
+            if v and v[0] == 'clo':
+                clos.append((i, v))
+        if clos:
+            once = ONCE_COMBINATORS.get(path)
+            if once and len(clos) == 1 and clos[0][0] == 1 and args:
+                recv = self.eval_op(st, args[0])
+                if recv and recv[0] == 'ref':
+                    recv = self.get(st, json.loads(recv[1]))
+                outs = []
+                runs = []
+                if recv and recv[0] == 'v' and len(recv[1]) == 1:
+                    runs = [(list(recv[1])[0] == once['when'])]
+                else:
+                    runs = [True, False]
+                for run in runs:
+                    s3 = dict(st)
+                    if run:
+                        self.run_closure(s3, clos[0][1])
+                        rv_ = once.get('ret_run')
+                    else:
+                        rv_ = once.get('ret_skip')
+                    if recv and recv[0] != 'v' or not recv:
+                        # learn the receiver variant on each branch when it is a tracked place
+                        r0 = self.eval_op(st, args[0])
+                        if r0 and r0[0] == 'ref' and once.get('receiver_place'):
+                            tgtp = json.loads(r0[1])
+                            if self.trackable(tgtp):
+                                s3[pkey(tgtp)] = ('v', frozenset([once['when'] if run else once['other']]))
+                    if once.get('sets_receiver') and run:
+                        r0 = self.eval_op(st, args[0])
+                        if r0 and r0[0] == 'ref':
+                            tgtp = json.loads(r0[1])
+                            self.kill_under(s3, tgtp)
+                            if self.trackable(tgtp):
+                                s3[pkey(tgtp)] = ('v', frozenset([once['sets_receiver']]))
+                    val_ = ('v', frozenset([rv_])) if rv_ else None
+                    outs.append((s3, val_, []))
+                return outs
+            for i, v in clos:
+                for cap in v[2]:
+                    if cap[1]:
+                        self.mut_capture(st, json.loads(cap[0]), v[1])
         summ = self.summaries.get(path) or self.summaries.get(c.get('resolved', ''))
         if summ and args:
             a0 = self.eval_op(st, args[0])
@@ -350,10 +473,16 @@ class Interp:
                 val = ('q', ())
             elif sty in ('usize', 'u64', 'i64', 'u32', 'i32'):
                 val = ('c', '0_' + sty)
+            elif sty.startswith(self.COLL_PREFIXES):
+                val = ('e',)
             handled = True
         elif path in ('std::collections::VecDeque::<T>::new', 'std::collections::VecDeque::<T>::with_capacity') \
                 and c.get('full', '').startswith('std::collections::VecDeque::<' + SE + '<'):
             val = ('q', ())
+            handled = True
+        elif path.rsplit('::', 1)[-1] in ('new', 'with_capacity', 'with_hasher', 'with_capacity_and_hasher') \
+                and (c.get('impl_self') or '').startswith(self.COLL_PREFIXES):
+            val = ('e',)
             handled = True
         elif path == 'std::option::Option::<T>::take' or path in ('std::mem::take', 'std::mem::replace'):
             tgt = arg_ref_target(0)
@@ -368,6 +497,10 @@ class Interp:
                     self.set(st, tgt, self.eval_op(st, args[1]))
                 elif old and old[0] == 'q':
                     self.set(st, tgt, ('q', ()))
+                elif path == 'std::mem::take' and self.trackable(tgt) and self.is_collection_place(tgt):
+                    self.set(st, tgt, ('e',))
+                    if old == ('e',):
+                        val = old
                 else:
                     self.set(st, tgt, None)
                 n = len(tgt)
@@ -452,6 +585,36 @@ class Interp:
                 else:
                     if m not in ('is_empty', 'len', 'front', 'back', 'iter'):
                         self.kill_under(st, tgt)
+        if not handled and args:
+            tgt = arg_ref_target(0)
+            if tgt is not None and self.trackable(tgt) and self.is_collection_place(tgt) and not self.is_queue_place(tgt):
+                m = path.rsplit('::', 1)[1] if '::' in path else path
+                rfull = any('RangeFull' in g_ for g_ in c.get('gargs', []))
+                if m == 'clear' or (m == 'drain' and (rfull or len(args) == 1)):
+                    st[pkey(tgt)] = ('e',)
+                    handled = True
+                elif m == 'is_empty':
+                    cur = self.get(st, tgt)
+                    val = ('c', 'true') if cur == ('e',) else ('isempty', pkey(tgt))
+                    handled = True
+                elif m in ('pop', 'pop_front', 'pop_back', 'pop_first', 'pop_last'):
+                    cur = self.get(st, tgt)
+                    if cur == ('e',):
+                        val = ('v', frozenset(['None']))
+                    else:
+                        self.kill_under(st, tgt)
+                        val = ('popres', pkey(tgt))
+                    handled = True
+                elif m in ('len', 'iter', 'get', 'contains_key', 'first', 'last', 'front', 'back', 'capacity', 'values', 'keys', 'contains', 'peek'):
+                    handled = True
+        if not handled and path in ('std::mem::swap',) and len(args) == 2:
+            a = arg_ref_target(0)
+            b = arg_ref_target(1)
+            if a is not None and b is not None and self.trackable(a) and self.trackable(b):
+                va, vb = self.get(st, a), self.get(st, b)
+                self.set(st, a, vb if vb and vb[0] in ('e', 'q', 'v', 'c') else None)
+                self.set(st, b, va if va and va[0] in ('e', 'q', 'v', 'c') else None)
+                handled = True
         if not handled:
             for i in range(len(args)):
                 v = self.eval_op(st, args[i])
@@ -506,6 +669,24 @@ class Interp:
                             return
                     yield oth, st, None
                     return
+            if d and d[0] == 'd' and st.get(d[1], (None,))[0] == 'popres':
+                src = st[d[1]][1]
+                for v, tb in targets:
+                    s2 = dict(st)
+                    s2[d[1]] = ('v', frozenset(['None' if v == '0' else 'Some']))
+                    if v == '0':
+                        s2[src] = ('e',)
+                    yield tb, s2, None
+                if self.fn.blocks[oth]['t']['t'] != 'unreachable':
+                    s2 = dict(st)
+                    listed = {v for v, _ in targets}
+                    if listed == {'0'}:
+                        s2[d[1]] = ('v', frozenset(['Some']))
+                    elif listed == {'1'}:
+                        s2[d[1]] = ('v', frozenset(['None']))
+                        s2[src] = ('e',)
+                    yield oth, s2, None
+                return
             if d and d[0] == 'd':
                 key = d[1]
                 adt = self.adt_of_key(key)
@@ -570,6 +751,10 @@ class Interp:
             st[pkey(pl)] = ('c', txt)
         if d and d[0] == 'same':
             st[d[1]] = ('c', txt)
+        if d and d[0] == 'isempty' and truth:
+            st[d[1]] = ('e',)
+        if d and d[0] == 'isnonempty' and not truth:
+            st[d[1]] = ('e',)
         if d and d[0] == 'isv':
             key, variant, sense = d[1], d[2], d[3]
             is_variant = (truth == sense)
@@ -592,7 +777,7 @@ class Interp:
             if isinstance(kp[0], str):
                 out[k] = v
                 continue
-            if len(kp) >= 3 and kp[0] == 1 and kp[1] == '*' and v[0] in ('c', 'v', 'q'):
+            if len(kp) >= 3 and kp[0] == 1 and kp[1] == '*' and v[0] in ('c', 'v', 'q', 'e'):
                 out[k] = v
         return out
 
